@@ -141,6 +141,15 @@ type blk struct {
 	rcRLP    []byte
 	balRLP   []byte // nil: no access list stored
 	txs      []common.Hash
+	trefs    []txRef
+}
+
+// txRef is a transaction together with the seed its receipt is derived from, so that
+// another block (a competing fork, or a later canonical block after a reorg) can
+// include the very same transaction.
+type txRef struct {
+	tx *types.Transaction
+	x  uint64
 }
 
 // chain is the reference block tree plus what the property lets us expect of the
@@ -175,7 +184,7 @@ type snap struct {
 
 var toAddr = common.HexToAddress("0x00000000000000000000000000000000000c25c2")
 
-func (c *chain) mkBlock(parent *blk, salt uint64) *blk {
+func (c *chain) mkBlock(parent *blk, salt uint64, reuse []txRef) *blk {
 	id := len(c.blocks)
 	h := simcore.SplitMix(salt ^ uint64(id)*0x9e3779b97f4a7c15)
 	b := &blk{id: id, parent: -1}
@@ -197,7 +206,7 @@ func (c *chain) mkBlock(parent *blk, salt uint64) *blk {
 	if h&0x30 == 0 || parent == nil {
 		ntx = 0 // the genesis block carries no transactions (a lookup entry for height 0 is an empty value)
 	}
-	var cum uint64
+	refs := append([]txRef{}, reuse...)
 	for i := 0; i < ntx; i++ {
 		c.txNonce++
 		x := simcore.SplitMix(h + uint64(i))
@@ -207,15 +216,26 @@ func (c *chain) mkBlock(parent *blk, salt uint64) *blk {
 		}
 		to := toAddr
 		tx := types.NewTx(&types.LegacyTx{Nonce: c.txNonce, To: &to, Value: big.NewInt(int64(x % 1000)), Gas: 21000 + uint64(len(data))*16, GasPrice: big.NewInt(1), Data: data})
+		// fresh transactions go before or after the shared ones
+		if x&(1<<20) != 0 {
+			refs = append([]txRef{{tx, x}}, refs...)
+		} else {
+			refs = append(refs, txRef{tx, x})
+		}
+	}
+	var cum uint64
+	for _, ref := range refs {
+		tx, x := ref.tx, ref.x
 		body.Transactions = append(body.Transactions, tx)
 		b.txs = append(b.txs, tx.Hash())
 		cum += tx.Gas()
 		rc := &types.Receipt{Type: types.LegacyTxType, Status: x & 1, CumulativeGasUsed: cum}
 		for l := 0; l < int(x>>8)%3; l++ {
-			rc.Logs = append(rc.Logs, &types.Log{Address: toAddr, Topics: []common.Hash{common.BigToHash(new(big.Int).SetUint64(x + uint64(l)))}, Data: data})
+			rc.Logs = append(rc.Logs, &types.Log{Address: toAddr, Topics: []common.Hash{common.BigToHash(new(big.Int).SetUint64(x + uint64(l)))}, Data: tx.Data()})
 		}
 		b.receipts = append(b.receipts, rc)
 	}
+	b.trefs = refs
 	if b.receipts == nil {
 		b.receipts = types.Receipts{}
 	}
@@ -237,6 +257,76 @@ func (c *chain) mkBlock(parent *blk, salt uint64) *blk {
 }
 
 func (c *chain) head() *blk { return c.blocks[c.canon[len(c.canon)-1]] }
+
+// reuseForSide picks transactions of the current canonical chain for a side block on
+// top of par: mostly from the canonical block of the SAME height (two forks of one
+// height usually carry the same pending transactions), sometimes from another height
+// above the fork point. Never a transaction the branch already contains.
+func (c *chain) reuseForSide(par *blk, salt uint64) []txRef {
+	fp := c.forkPoint(par)
+	used := map[common.Hash]bool{}
+	for a := par; a.id != fp.id; a = c.blocks[a.parent] {
+		for _, th := range a.txs {
+			used[th] = true
+		}
+	}
+	x := simcore.SplitMix(salt ^ 0x7e57ab1e)
+	h := par.num + 1
+	var out []txRef
+	take := func(r txRef) {
+		if !used[r.tx.Hash()] {
+			used[r.tx.Hash()] = true
+			out = append(out, r)
+		}
+	}
+	if h < uint64(len(c.canon)) && x%10 < 7 {
+		cb := c.blocks[c.canon[h]]
+		for i, r := range cb.trefs {
+			if (x>>(8+uint(i)))&1 == 1 || uint64(i) == (x>>4)%uint64(len(cb.trefs)) {
+				take(r)
+			}
+		}
+	}
+	if top := uint64(len(c.canon)) - 1; top > fp.num && (x>>32)%10 < 3 {
+		h2 := fp.num + 1 + (x>>36)%(top-fp.num)
+		if h2 != h {
+			for i, r := range c.blocks[c.canon[h2]].trefs {
+				if i == 0 || (x>>(40+uint(i)))&1 == 1 {
+					take(r)
+				}
+			}
+		}
+	}
+	return out
+}
+
+// reuseForCanon picks transactions of blocks that are NOT on the canonical chain (forks,
+// blocks dropped by a reorg) for inclusion in the next canonical block, as a pool does.
+func (c *chain) reuseForCanon(salt uint64) []txRef {
+	x := simcore.SplitMix(salt ^ 0xca11ab1e)
+	if x%10 >= 3 {
+		return nil
+	}
+	onCanon := map[common.Hash]bool{}
+	for _, id := range c.canon {
+		for _, th := range c.blocks[id].txs {
+			onCanon[th] = true
+		}
+	}
+	var out []txRef
+	for _, b := range c.blocks {
+		if c.isCanon[b.id] {
+			continue
+		}
+		for i, r := range b.trefs {
+			if !onCanon[r.tx.Hash()] && (x>>(8+uint(b.id+i)%40))&1 == 1 && len(out) < 3 {
+				onCanon[r.tx.Hash()] = true
+				out = append(out, r)
+			}
+		}
+	}
+	return out
+}
 
 // boundary returns the highest frozen height and whether anything is frozen.
 func (c *chain) forkPoint(b *blk) *blk {
@@ -503,7 +593,7 @@ func runOnce(t *testing.T, p *Plan, want string) *simcore.Result {
 	w.quiesce()
 
 	// genesis
-	g := c.mkBlock(nil, p.CutSeed)
+	g := c.mkBlock(nil, p.CutSeed, nil)
 	c.canon = []int{g.id}
 	c.isCanon[g.id] = true
 	w.writeBlock(g, true)
@@ -513,7 +603,11 @@ func runOnce(t *testing.T, p *Plan, want string) *simcore.Result {
 		switch op.K {
 		case "canon":
 			for i := 0; i < op.N && len(c.canon) < 400; i++ {
-				b := c.mkBlock(c.head(), op.S+uint64(i))
+				reuse := c.reuseForCanon(op.S + uint64(i))
+				if len(reuse) > 0 {
+					res.Probe("canonical-block-reincludes-fork-tx")
+				}
+				b := c.mkBlock(c.head(), op.S+uint64(i), reuse)
 				c.canon = append(c.canon, b.id)
 				c.isCanon[b.id] = true
 				w.writeBlock(b, true)
@@ -538,7 +632,20 @@ func runOnce(t *testing.T, p *Plan, want string) *simcore.Result {
 			par := cands[op.A%uint64(len(cands))]
 			// bias towards forks that matter: prefer parents not far above the finalized height
 			for i := 0; i < op.N; i++ {
-				b := c.mkBlock(par, op.S+uint64(i)+0x5151)
+				reuse := c.reuseForSide(par, op.S+uint64(i))
+				b := c.mkBlock(par, op.S+uint64(i)+0x5151, reuse)
+				for _, r := range reuse {
+					if b.num < uint64(len(c.canon)) {
+						for _, th := range c.blocks[c.canon[b.num]].txs {
+							if th == r.tx.Hash() {
+								res.Probe("side-block-shares-tx-with-canonical-same-height")
+							}
+						}
+					}
+				}
+				if len(reuse) > 0 {
+					res.Probe("side-block-shares-canonical-tx")
+				}
 				w.writeBlock(b, false)
 				par = b
 				if c.isCanon[b.parent] {
@@ -937,6 +1044,10 @@ func (w *world) checkCanonical(db ethdb.Database, s *snap, when string) *simcore
 				return bad(n, "ReadCanonicalRawReceipt", "tx %d: err=%v", i, err)
 			}
 			_ = ctx
+			cr, cbh, cbn, cidx := rawdb.ReadCanonicalReceipt(db, th, params.TestChainConfig)
+			if cr == nil || cr.TxHash != th || cbh != b.hash || cbn != n || cidx != uint64(i) || cr.Status != b.receipts[i].Status {
+				return bad(n, "ReadCanonicalReceipt", "tx %d (%x): got block %x number %d index %d (nil=%v)", i, th[:6], cbh[:6], cbn, cidx, cr == nil)
+			}
 		}
 	}
 	head := uint64(len(s.canon)) - 1
@@ -1276,7 +1387,7 @@ func Checks() map[string]*simcore.Check {
 			Runs:      map[string]int{"quick": 240, "thorough": 12000},
 			Gen:       gen, Decode: decode, Run: run, Shrink: shrink,
 			ProbeNames: []string{"freeze-advanced", "freeze-noop", "reorg", "fork-from-canonical", "crash-before-copy-visible", "crash-after-copy",
-				"side-chain-removal-expected", "dangling-descendants-expected", "side-above-boundary-kept", "canonical-kv-copy-left-after-crash"},
+				"side-chain-removal-expected", "dangling-descendants-expected", "side-block-shares-tx-with-canonical-same-height", "side-block-shares-canonical-tx", "canonical-block-reincludes-fork-tx", "side-above-boundary-kept", "canonical-kv-copy-left-after-crash"},
 		},
 	}
 }
